@@ -274,9 +274,14 @@ func (filter *CuckooFilterRedis) Import(data []byte, withNewRedisKey bool) error
 		bucketJSON := f.Buckets[i]
 		bucketKey := filter.getIndexKey(uint64(i))
 		bucket := newBucketRedis(bucketKey, f.BucketSize)
+		length := int64(0)
 		for j := range bucketJSON.Elements {
-			bucket.add(bucketJSON.Elements[j])
+			getRedisClient().RPush(context.Background(), bucketKey, bucketJSON.Elements[j])
+			if bucketJSON.Elements[j] != "" {
+				length++
+			}
 		}
+		getRedisClient().IncrBy(context.Background(), bucketKey+"_len", length)
 		filters[bucketKey] = bucket
 	}
 	filter.buckets = filters
